@@ -145,6 +145,17 @@ theorem failover_lock_discipline (n h : Nat) (wp tr : Bool) (reqs : List (Failov
     (∀ (t i a : Nat), s.callers[t]? = some (.holdR i a) → a = s.active) :=
   ⟨(Failover.mutex n h wp tr reqs s hr).excl, (Failover.mutex n h wp tr reqs s hr).pin⟩
 
+/-- **every request returns**: whatever the members do and however the callers are scheduled, a run of
+    `k` callers on `n` members takes at most `k (10 n + 10)` steps (the loop bound `len(g.stores)`); by
+    `failover_no_deadlock` a run can only stop when every caller has returned -/
+theorem failover_every_schedule_ends (n h : Nat) (wp tr : Bool) (reqs : List (Failover.Op × Bool))
+    (s' : Failover.St) (es : List Failover.Ev)
+    (hrun : Failover.run (Failover.St.init n h wp tr reqs) es = some s') :
+    es.length ≤ reqs.length * (n * 10 + 10) := by
+  have := Failover.run_bounded n h wp tr reqs _ s' .refl es hrun
+  rw [Failover.total_init] at this
+  omega
+
 /-- non-vacuity: three members, the healthy one last; two callers (a `GetChunk` and a `HasChunk`) both
     call member 0, both get an error and both report it: the first advances `active`, the second finds
     it moved (stale) — then member 1 fails the first caller again; both end with the healthy member's answer -/
@@ -199,6 +210,14 @@ theorem swap_store_never_panics (wp : Bool) (roles : List Swap.Role) (s : Swap.S
     (hr : Swap.Reachable (Swap.St.init true wp roles) s) :
     s.curW = true ∧ ∀ (t e : Nat), s.callers[t]? ≠ some (.panicked e) :=
   Swap.store_never_panics wp roles s hr
+
+/-- **every request and every swap returns**: a run of `k` callers takes at most `7 k` steps; by
+    `swap_progress` it can only stop when every caller has returned -/
+theorem swap_every_schedule_ends (curW wp : Bool) (roles : List Swap.Role) (s' : Swap.St) (es : List Swap.Ev)
+    (hrun : Swap.run (Swap.St.init curW wp roles) es = some s') : es.length ≤ roles.length * 7 := by
+  have := Swap.run_bounded _ s' es hrun
+  rw [Swap.total_init] at this
+  omega
 
 /-- non-vacuity: a `StoreChunk` in flight on store 0 while a `Swap` announces itself; the swap waits,
     the request finishes on store 0, then store 0 is closed and store 1 installed; a `GetChunk`
